@@ -557,12 +557,12 @@ func c11Run(c *fw.Ctx, i int) {
 	}
 
 	// ---- the options of the real CLI: same matching as the library with the same values ----
-	if bin := os.Getenv("VERIF_GEDCOM_BIN"); bin != "" && i%8 == 2 {
+	if bin := os.Getenv("VERIF_GEDCOM_BIN"); bin != "" && (i+i/len(c11Scenarios))%8 == 2 {
 		c11CLIOptions(c, i, bin)
 	}
 
 	// ---- the real CLI built with the race detector ----
-	if bin := os.Getenv("VERIF_GEDCOM_BIN"); bin != "" && i%4 == 0 && i != c11BigCase && len(base.People) > 0 && len(right.People) > 0 {
+	if bin := os.Getenv("VERIF_GEDCOM_BIN"); bin != "" && (i+i/len(c11Scenarios))%4 == 0 && i != c11BigCase {
 		dir := os.Getenv("VERIF_SCRATCH")
 		if dir == "" {
 			dir = os.TempDir()
@@ -575,6 +575,10 @@ func c11Run(c *fw.Ctx, i int) {
 		var buf bytes.Buffer
 		buf.WriteString(outS)
 		c.Count("cli-diff-runs", 1)
+		c.Class("cli-diff-scenario", scen)
+		if len(base.People) == 0 || len(right.People) == 0 {
+			c.Count("cli-diff-runs-with-an-empty-side", 1)
+		}
 		if !okRun {
 			return
 		}
